@@ -578,6 +578,14 @@ func (generator *BuilderGenerator) structObjectToBuilder(schemas Schemas, schema
 		if field.Type.IsConstantRef() {
 			continue
 		}
+		// a reference to an object that is itself a reference to a constant (`KA: Kind & "a"`, `k: KA`):
+		// the value of the field is fixed too
+		if resolvedType := schemas.ResolveToType(field.Type); field.Type.IsRef() && resolvedType.IsConstantRef() {
+			constantAssignment := ConstantAssignment(PathFromStructField(field), resolvedType.AsConstantRef().ReferenceValue)
+
+			builder.Constructor.Assignments = append(builder.Constructor.Assignments, constantAssignment)
+			continue
+		}
 
 		option := generator.structFieldToOption(field)
 
